@@ -21,7 +21,7 @@ RULE = ("Engine S histories on FleetStore and the Fleet edge: capacity 1-5, wait
 ASSUMPTIONS = ["timer phase of the dispatcher (restart at every wake-up) is taken from the implementation; everything else from the statement",
                "delay == 0 is not generated here (zero-time spin, owned by C20)"]
 
-WEIGHTS = {"rp": 8, "rg": 4, "put": 9, "get": 4, "cp": 1, "cg": 1, "settle": 2, "adv": 7}
+WEIGHTS = {"rp": 8, "rg": 4, "put": 9, "get": 4, "cp": 1, "cg": 1, "settle": 2, "adv": 7, "peek": 3}
 CLASSES = ["FleetStore", "Fleet"]
 
 
